@@ -8,6 +8,8 @@ every success path.
  K4-deleted-means-recycled-or-tombstone  post_repl_incremental's liveness tests use mask_recycled_ts on pre- and post-image (no partial predicate).
 Not decided: the plugin's own logic (that the checks/removals it performs leave no dangling reference after
 arbitrary histories).
+ K4-reference-existence-per-uuid  check_uuids_exist_fast must establish existence per referenced uuid; today it tests an Inclusion under the
+     hidden-entry exclusion (one live uuid vouches for recycled ones): known finding F18, findings/F18_C16.
 """
 from .lib.x_plugins import Pipelines, hook_nontrivial
 
@@ -30,6 +32,7 @@ POST = ["run_post_create", "run_post_modify", "run_post_batch_modify", "run_post
 def run(ctx):
     _run_main(ctx)
     deleted_means_recycled_or_tombstone(ctx)
+    existence_test_is_per_reference(ctx)
 
 
 def _run_main(ctx):
